@@ -18,6 +18,7 @@ import (
 	"fmt"
 	"os"
 	"runtime/debug"
+	"runtime/pprof"
 	"strings"
 	"time"
 
@@ -26,6 +27,7 @@ import (
 	"verif.local/sim/core"
 	"verif.local/sim/simrt"
 	_ "verif.local/sim/props/c04"
+	_ "verif.local/sim/props/c12"
 	_ "verif.local/sim/props/c13"
 	_ "verif.local/sim/props/c19"
 )
@@ -72,6 +74,13 @@ func main() {
 		os.Exit(2)
 	}
 	simrt.SiteHits = make([]bool, len(verifsim.Sites))
+	if pf := os.Getenv("VERIF_CPUPROFILE"); pf != "" {
+		f, err := os.Create(pf)
+		if err == nil {
+			pprof.StartCPUProfile(f)
+			defer pprof.StopCPUProfile()
+		}
+	}
 	switch os.Args[1] {
 	case "run":
 		cmdRun(os.Args[2:])
